@@ -521,11 +521,20 @@ def prf_wiring(ctx, facts):
         ctx.ob("WIRE-prf", "report-fields", ok5, why5, site5)
         # 6. picker
         rs = flow.find_calls(main, re.compile(r"context::reshard_try_stream$"))
-        pk = closure_arg(main, rs[0], 2)
-        ok6 = False
-        if pk is not None:
+        ok6 = bool(rs)
+        for rcall in rs:        # every resharding call of the stage (the one for an empty local set included)
+            pk = closure_arg(main, rcall, 2)
+            off = 1             # a closure body's parameters follow its environment
+            if pk is None:
+                e_ = flow.expr_of(main, rcall[1]["args"][2], max_depth=4)
+                if e_[0] == "fn":       # the picker is a named function: same rule, parameters start at 1
+                    pk = facts.bodies.get(e_[1])
+                    off = 0
+            if pk is None:
+                ok6 = False
+                continue
             r = flow.expr_of(pk, {"cp": [0]}, max_depth=8)
-            ok6 = r[0] == "call" and r[1].endswith("ops::Rem::rem") and r[2][0] == ("arg", 4, "match_key") and r[2][1] == ("call", "sharding::ShardConfiguration::shard_count", (("arg", 2),))
+            ok6 = ok6 and r[0] == "call" and r[1].endswith("ops::Rem::rem") and r[2][0] == ("arg", 3 + off, "match_key") and r[2][1] == ("call", "sharding::ShardConfiguration::shard_count", (("arg", 1 + off),))
         ctx.ob("WIRE-prf", "route-by-prf-value-only", ok6, "destination = report.match_key % shard_count" if ok6 else "the destination shard is not a function of the PRF value and the shard count alone: helpers (or shards) disagree about where a report goes, or equal match keys land on different shards", site_of(pk) if pk is not None else site_of(main))
         # 7. sizes
         sp = flow.find_calls(main, re.compile(r"TotalRecords::specified$"))
